@@ -35,6 +35,7 @@ func (p *Prog) timerEventArgs(st *State, desc string, args []*Expr) string {
 
 func checkC06(c *Check) {
 	c.fsmContracts("C06.3 fsm-effects")
+	c.restartAfterHandler("C06.3 restart-after-handler")
 	c.specConstants("C06.4 spec-constants", "NOTIF_CODE_HOLD_TIMER_EXPIRED", "keepAliveMessageType")
 	p := c.P
 	outer := p.Fn("fsm.openSent")
